@@ -71,6 +71,15 @@ def dexp(v):
     return f"{m}d{int(e)}"
 
 
+SHAPES_THOROUGH = [
+    ("adjacent4", [(5, 20), (20, 100), (100, 1000), (1000, 0)]),
+    ("empty-window", [(10, 10)]),
+    ("neg-lower-pos-upper", [(-5, 300)]),
+    ("one-kelvin", [(1, 2), (2, 3)]),
+]
+SHAPES_REAL_THOROUGH = [("subnormal", [(5e-324, 1e-320)]), ("three-decimals", [(10.125, 300.875)]), ("adjacent-inexact3", [(0.1, 0.2), (0.2, 0.3), (0.3, 0)])]
+
+
 def build_cases(tier):
     """-> {fmt: [ (label, line-or-reaction-args, declared (lo,hi), group id) ]}"""
     out = {}
@@ -79,7 +88,8 @@ def build_cases(tier):
     def add(fmt, label, payload, win, g):
         out.setdefault(fmt, []).append((label, payload, win, g))
 
-    for name, pieces in SHAPES_INT + SHAPES_REAL:
+    shapes = SHAPES_INT + SHAPES_REAL + ((SHAPES_THOROUGH + SHAPES_REAL_THOROUGH) if tier != "quick" else [])
+    for name, pieces in shapes:
         isint = all(float(lo).is_integer() and float(hi).is_integer() and abs(lo) < 1e5 and abs(hi) < 1e5 for lo, hi in pieces)
         gid += 1
         for lo, hi in pieces:
@@ -106,7 +116,7 @@ def build_cases(tier):
 
 
 def run_fmt(arg):
-    fmt, cases = arg
+    fmt, cases, backend = arg
     from ..harness.render import render, reset_globals, scratch, quiet
     from ..harness import ratesrun as RR
 
@@ -163,17 +173,17 @@ def run_fmt(arg):
                 # business, but a disagreement here would make the verdict ambiguous: report it
                 if fmt != "uclchem-freeze" and (float(r.temp_min), float(r.temp_max)) != win and not (win[0] <= 0 and r.temp_min <= 0 and win[1] <= 0 and r.temp_max <= 0) and not (win[0] <= 0 and r.temp_min <= 0 and r.temp_max == win[1]) and not (win[1] <= 0 and r.temp_max <= 0 and r.temp_min == win[0]):
                     viols.append((f"C06:parsed-window:{fmt}:{label.split('/')[-1]}", f"{fmt} '{label}': declared window {win} parsed as ({r.temp_min},{r.temp_max})", {"fmt": fmt, "label": label}))
-        solver = "cvode"
-        files = render(net, "dense", RR.RATE_TEMPLATES_CVODE)
-        stmts, decls, macros = RR.read_rate_statements(files)
+        solver = "odeint" if backend == "rosenbrock4" else "cvode"
+        files = render(net, backend, RR.RATE_TEMPLATES_ODEINT if solver == "odeint" else RR.RATE_TEMPLATES_CVODE)
+        stmts, decls, macros = RR.read_rate_statements(files, source="src/naunet_ode.cpp" if solver == "odeint" else "src/naunet_rates.cpp")
         temps = sorted(set().union(*[temps_for([w]) for _, w, _ in kept]))
         fields = [f for f, _ in RR.data_fields(files)]
         base = {"nH": 1e4, "zeta": 1.3e-17, "Av": 1.0, "omega": 0.5, "G0": 1.0, "Tdust": 10.0, "zeta_cr": 1.3e-17, "zeta_xr": 0.0, "rG": 1e-5, "gdens": 1e-8}
         grid = [dict({k: v for k, v in base.items() if k in fields}, Tgas=T) for T in temps]
-        res = RR.build_and_run(files, grid)
+        res = RR.build_and_run(files, grid, solver=solver)
         if res.get("compile_error"):
             first = next((ln for ln in res["compile_error"].splitlines() if "error" in ln), "")
-            return len(kept), viols + [(f"C06:compile-error:{fmt}", first[:300], {"fmt": fmt})], 0
+            return len(kept), viols + [(f"C06:compile-error:{fmt}", first[:300], {"fmt": fmt, "backend": backend})], 0
         if res.get("run_error"):
             raise HarnessError(res["run_error"])
         nval = 0
@@ -196,7 +206,7 @@ def run_fmt(arg):
                         (
                             f"C06:window:{fmt}:{where}",
                             f"{fmt} '{label}' window [{lo},{hi}) at T={T!r}: k={got!r}, expected {'law value' if exp_active else 'exactly 0.0'}; statement: {stmts[i]['stmt'][:120]}",
-                            {"fmt": fmt, "label": label, "window": [lo, hi], "T": T},
+                            {"fmt": fmt, "label": label, "window": [lo, hi], "T": T, "backend": backend},
                         )
                     )
                     break
@@ -221,14 +231,67 @@ def run_fmt(arg):
         shutil.rmtree(tmp, ignore_errors=True)
 
 
+SEQ_T = [5.0, 150.0, 299.999, 300.0, 999.0, 1000.0, 2000.0, 50.0, 5.0, 300.0, 1e4, 150.0]
+
+
+def run_sequence(backend):
+    """History check: the compiled Fex/Jac are called repeatedly *in one process* while the temperature walks
+    into and out of the windows; a reaction that was active once must be inactive again outside its window
+    (the rate buffer has to start from zero on every call)."""
+    from ..harness import oderun as OR
+    from ..harness.render import render, reset_globals, quiet
+
+    reset_globals()
+    from naunet.network import Network
+    from naunet.reactions.reaction import Reaction
+    from naunet.reactiontype import ReactionType
+
+    with quiet():
+        net = Network(
+            [
+                Reaction(["H", "H"], ["H2"], 10.0, 300.0, 2.0, 0.0, 0.0, ReactionType.GAS_TWOBODY, 1),
+                Reaction(["H", "H"], ["H2"], 300.0, 1000.0, 3.0, 0.0, 0.0, ReactionType.GAS_TWOBODY, 2),
+                Reaction(["H2"], ["H", "H"], -1.0, -1.0, 0.5, 0.0, 0.0, ReactionType.GAS_TWOBODY, 3),
+            ]
+        )
+        files = render(net, backend, OR.TEMPLATES_ODEINT if backend == "rosenbrock4" else OR.TEMPLATES_CVODE)
+    from ..ctext.stmts import read_macros
+
+    m = read_macros(files["include/naunet_macros.h"])
+    ih, ih2 = m.value("IDX_HI"), m.value("IDX_H2I")
+    y = [0.0, 0.0]
+    y[ih], y[ih2] = 1.0, 1.0
+    params = [{"nH": 1e4, "Tgas": T, "zeta": 1.3e-17, "Av": 1.0, "omega": 0.5} for T in SEQ_T]
+    res = OR.build_and_run(files, backend, [list(y) for _ in SEQ_T], params, sanitize=False)
+    if "error" in res:
+        raise HarnessError(f"C06 sequence harness [{backend}]: {res}")
+    viols = []
+    n = 0
+    for T, r in zip(SEQ_T, res["runs"]):
+        k1 = 2.0 if 10.0 <= T < 300.0 else 0.0
+        k2 = 3.0 if 300.0 <= T < 1000.0 else 0.0
+        exp_h2 = (k1 + k2) * 1.0 - 0.5 * 1.0
+        exp_j = 2 * (k1 + k2) * 1.0
+        n += 2
+        if abs(r["ydot"][ih2] - exp_h2) > 1e-12 or abs(r["jac"].get((ih2, ih), 0.0) - exp_j) > 1e-12:
+            viols.append((f"C06:sequence:{backend}", f"{backend}: after the temperature walk {SEQ_T[:SEQ_T.index(T)+1] if T in SEQ_T else SEQ_T} the compiled Fex gives dH2/dt={r['ydot'][ih2]!r} (window predicate: {exp_h2!r}), Jac d/dH={r['jac'].get((ih2, ih), 0.0)!r} (expected {exp_j!r})", {"sequence": True, "backend": backend}))
+            break
+    return n, viols
+
+
 def run(ctx):
     cases = build_cases(ctx.tier)
     total = nval = 0
-    for n, viols, nv in ctx.pmap(run_fmt, list(cases.items())):
+    backends = ["dense"] if ctx.tier == "quick" else ["dense", "rosenbrock4"]
+    for n, viols, nv in ctx.pmap(run_fmt, [(f, c, b) for f, c in cases.items() for b in backends]):
         total += n
         nval += nv
         ctx.absorb(viols)
+    for n, viols in ctx.pmap(run_sequence, ["dense", "sparse", "rosenbrock4"]):
+        nval += n
+        ctx.absorb(viols)
     ctx.assumptions += [
+        "history sub-check: compiled Fex and Jac of all three CPU back-ends are called 12 times in one process along a temperature walk that enters and leaves adjacent windows; every call must obey the window predicate",
         "every probe reaction has the constant law k=2.0; active <=> compiled k == 2.0, inactive <=> compiled k is +0.0 (k pre-set to the template's {0.0} initialiser, whose presence in Fex/Jac is checked by C03)",
         "window predicate of the property: (Tmin<=0 or T>=Tmin) and (Tmax<=0 or T<Tmax); KROME comparison operators (.LE./.GE./</>) are read as plain bounds",
         "temperatures: each bound, its two neighbouring doubles, half, double, mid-point, 1e-300, 1e300 - the union over the pack is applied to every reaction",
@@ -244,7 +307,11 @@ def run(ctx):
 
 
 def replay(ctx, case):
+    if case.get("sequence"):
+        n, v = run_sequence(case["backend"])
+        ctx.absorb(v)
+        return
     cases = build_cases("thorough")
     fmt = case["fmt"]
-    n, viols, nv = run_fmt((fmt, cases[fmt]))
+    n, viols, nv = run_fmt((fmt, cases[fmt], case.get("backend", "dense")))
     ctx.absorb(viols)
